@@ -34,6 +34,8 @@ THEOREMS = [
     ("encoded_prefix_is_sealed",
      "forall (l : list str) (b : str), "
      "quoted_str_split (join_sp (map encode_quoted_str l) ++ c_space :: b) = l ++ quoted_str_split b"),
+    ("encoding_bounded",
+     "forall s : str, (length s + 2 <= length (encode_quoted_str s) <= 2 * length s + 2)%nat"),
     ("utf8_decode_encode",
      "forall s : str, all_scalar s = true -> utf8_decode (utf8_encode s) = Some s"),
     ("frame_spec",
